@@ -223,7 +223,8 @@ def timeout_delays(ctx: Ctx, rep: Report, rule: str):
                     d = expand_locals(call.args[0], m.node)
                     ok = last == "call_later" and chain(d) == ("self", "timeout")
                     rep.check(ok, rule, key, m.loc(call), "%s waits the configured self.timeout" % m.short,
-                              bad="%s schedules the timeout after %s, not after the configured self.timeout: the transmission is abandoned (and the lock handed on) at another moment than the one the caller configured" % (m.short, norm(call.args[0])))
+                              bad="%s schedules the timeout %s, not self.timeout seconds from now: the transmission is abandoned (and the lock handed on) at another moment than the one the caller configured" % (
+                                  m.short, ("with call_at at the absolute loop time %s" % norm(call.args[0])) if last != "call_later" else ("after %s" % norm(call.args[0]))))
     if n < 1:
         raise AnalysisError("no place schedules self._timeout_mechanism with a delay (expected in _send_request and the partial-response handlers)")
 
